@@ -1597,3 +1597,68 @@ func ruleSidePairing(c *Ctx) {
 		})
 	}
 }
+
+// ruleGuardSubject (R-GUARD-SUBJECT): in mdiff.AddContext a block entered because a slice of context lines is not
+// empty works with THAT slice.  `if len(pre) != 0 { … post … }` attaches the trailing context when there is
+// leading context.
+func ruleGuardSubject(c *Ctx) {
+	c.rule("R-GUARD-SUBJECT", 0, "in AddContext a block guarded by len(v) != 0 uses v")
+	fn := c.P.Func("mdiff", "Diff", "AddContext")
+	if fn == nil {
+		return
+	}
+	n := 0
+	allInstrs(fn, func(in ssa.Instruction) {
+		iff, ok := in.(*ssa.If)
+		if !ok {
+			return
+		}
+		for i := 0; i < 2; i++ {
+			cm, ok := edgeCmp(iff, i)
+			if !ok {
+				continue
+			}
+			ln, isLen := isBuiltinCall(cm.X, "len")
+			k, isK := constInt(cm.Y)
+			if !isLen || !isK || !((cm.Op == token.NEQ && k == 0) || (cm.Op == token.GTR && k == 0) || (cm.Op == token.GEQ && k == 1)) {
+				continue
+			}
+			v := ln.Call.Args[0]
+			if _, isSlice := v.Type().Underlying().(*types.Slice); !isSlice {
+				continue
+			}
+			if _, isParam := v.(*ssa.Parameter); isParam {
+				continue
+			}
+			if _, f := loadedField(v); f != nil {
+				continue // a field re-read in the block is another SSA value: only locals are compared by identity
+			}
+			blk := iff.Block().Succs[i]
+			if len(blk.Preds) != 1 {
+				continue
+			}
+			uses := false
+			var other ssa.Value
+			for _, in2 := range blk.Instrs {
+				for _, op := range in2.Operands(nil) {
+					if op == nil || *op == nil {
+						continue
+					}
+					if *op == v {
+						uses = true
+					} else if types.Identical((*op).Type(), v.Type()) {
+						if _, isC := (*op).(*ssa.Const); !isC {
+							other = *op
+						}
+					}
+				}
+			}
+			if other == nil && !uses {
+				continue // the block works with no slice of this kind at all: nothing to compare
+			}
+			n++
+			c.sawFn(fnName(fn))
+			c.judge(uses, "R-GUARD-SUBJECT", fmt.Sprintf("%s:block guarded by len(%s) #%d", fnName(fn), ksym(v), n), iff.Cond.Pos(), "uses the slice it was entered for", fmt.Sprintf("the block entered when %s is not empty never uses it and works with %s instead: the one kind of context is attached (or not) depending on whether there is any of the other", ksym(v), ksym(other)))
+		}
+	})
+}
